@@ -28,7 +28,18 @@ DescsBoth == <<
   D("video/foo", 90000, 0, ""),
   D("audio/opus", 48000, 2, "minptime=10;useinbandfec=1"), D("audio/opus", 48000, 2, ""),
   D("audio/OPUS", 48000, 0, "useinbandfec=0"), D("audio/opus", 0, 0, ""), D("audio/opus", 48000, 1, ""),
-  D("audio/PCMU", 8000, 0, ""), D("audio/pcmu", 8000, 1, ""), D("audio/PCMU", 0, 0, "") >>
+  D("audio/PCMU", 8000, 0, ""), D("audio/pcmu", 8000, 1, ""), D("audio/PCMU", 0, 0, ""),
+  \* H264 profiles with the same profile_idc as another one of the domain but a different profile-iop
+  \* (42e0 / 4200, 6400 / 640c), and one whose profile-level-id is not well-formed hex
+  D("video/H264", 90000, 0, "level-asymmetry-allowed=1;packetization-mode=1;profile-level-id=42001f"),
+  D("video/H264", 90000, 0, "packetization-mode=1;profile-level-id=42001f"),
+  D("video/H264", 90000, 0, "packetization-mode=1;profile-level-id=640c1f"),
+  D("video/H264", 90000, 0, "level-asymmetry-allowed=1;packetization-mode=1;profile-level-id=64001f"),
+  D("video/H264", 90000, 0, "packetization-mode=1;profile-level-id=4200 1f") >>
+\* indices of the H264 descriptors with packetization-mode=1 and a well-formed profile-level-id
+H264Pm1 == {i \in 1..Len(DescsBoth) : DescsBoth[i].mime = "video/H264" /\ DescsBoth[i].clock = 90000
+                                        /\ ParseLine(DescsBoth[i].line).plid \notin {"none", "bad"}
+                                        /\ ParamOr(ParseLine(DescsBoth[i].line), "packetization-mode", "") = "1"}
 \* descriptors only the local side can have (media part in another case)
 DescsLocalOnly == << D("VIDEO/VP8", 90000, 0, ""), D("Video/H264", 90000, 0, H264A), D("AUDIO/opus", 48000, 2, "") >>
 Descs  == DescsBoth \o DescsLocalOnly
